@@ -3,6 +3,7 @@ package checks
 import (
 	"encoding/hex"
 	"fmt"
+	"sync"
 
 	"verif/harness/gen"
 	"verif/harness/model"
@@ -171,6 +172,58 @@ func multiPairScenario(c *vk.Case, kp string, concurrent, reorgs bool, minShare 
 	var undo func()
 	if concurrent {
 		undo = delayHooks(r.Fork(), spec, me.env.PG, 2)
+	} else if r.Chance(1, 3) {
+		// a few transient request failures: a fetch one pair could not complete must not change what another pair
+		// (or the same pair, retrying) is given for that range afterwards
+		var fmu sync.Mutex
+		fr := r.Fork()
+		left := r.Range(1, 4)
+		armed := false // fail the next segment (block/header batch) request
+		for _, s := range spec.Sources {
+			s.Node.SetHook(func(info *simnode.ReqInfo) simnode.Action {
+				fmu.Lock()
+				defer fmu.Unlock()
+				act := simnode.Action{ElemErr: -1}
+				if armed && !info.Poller && info.Batch && len(info.Calls) > 0 && info.Calls[0].Method == "eth_getBlockByNumber" && info.Calls[0].BlockArg != "latest" {
+					armed = false
+					act.Fail, act.Status = simnode.FailHTTP, 503
+					c.Obs("transient_request_failures", 1)
+					c.Obs("segment_fetch_failed_then_others_step", 1)
+					return act
+				}
+				if info.Poller || left == 0 || !fr.Chance(1, 6) {
+					return act
+				}
+				left--
+				act.Fail = vk.Pick(fr, []simnode.FailKind{simnode.FailHTTP, simnode.FailRPCError, simnode.FailCut})
+				act.Status = 503
+				c.Obs("transient_request_failures", 1)
+				return act
+			})
+		}
+		undo = func() {
+			for _, s := range spec.Sources {
+				s.Node.SetHook(nil)
+			}
+		}
+		if r.Bool() {
+			// all pairs of a source stand before the same first segment: one pair's segment fetch fails, the others
+			// step over that range, the first pair retries
+			p := vk.Pick(r, me.pairs)
+			fmu.Lock()
+			armed = true
+			fmu.Unlock()
+			me.stepSeq(p, true)
+			for _, q := range me.pairs {
+				if q != p && q.src == p.src {
+					me.stepSeq(q, true)
+				}
+			}
+			me.stepSeq(p, true)
+			fmu.Lock()
+			armed = false
+			fmu.Unlock()
+		}
 	}
 	for i := 0; i < nops && len(c.Res.Violations) == 0; i++ {
 		switch k := r.Intn(10); {
